@@ -12,6 +12,16 @@ Tie (layered correspondence, all evaluated inside Coq against Model/PairCount.v)
       model radius by C01_prune_sound_stored_radii), and is the model radius (largest separation from the stored
       centre).  The data of a scenario sit symmetric around the given centres, or one-sided / on an arc / in the
       corner of a 2x2 block / in a clump at the rim / as a single object far from the centre (SHAPES).
+  IGN  columns and values a measurement is documented to ignore (Model/PairIgnored.v): the catalogs of the L3
+      scenarios carry them as a generated dimension (spec["ign"]) - a redshift column on the unbinned sample (unknown and
+      its randoms) full of -99 flags / negative / zero / huge / out-of-range / in-range values, redshifts of the binned
+      samples outside the binning, an all-ones weight column instead of none, further columns of the input table, trees
+      built explicitly (same / another binning / forced) before the measurement.  The cases hand the COLUMNS to Coq
+      (c01_ign_e2e_case: bin index by np.digitize's rule computed there); the oracle stays the pair sum over ALL objects.
+      L2T: the same catalogs through the tree entry points (build_trees, BinnedTrees.build / reopened, Catalog.build_trees,
+      trees cached by a measurement, AngularTree on the stored columns) - counts, num_records and sum_weights of a tree
+      against the selection of its patch (c01_ign_tree_case).  The stored records are compared with the generated input
+      table first (the oracle's objects do not come from the library alone).
 Separations are squared chord lengths of the implementation's own unit vectors, as exact
 integers at a common power-of-two scale; thresholds are the exact squares of the
 implementation's chord radii.  Cases with a pair within 2^-40 (relative) of a threshold are
@@ -19,6 +29,7 @@ skipped and counted (near_tie_skipped).
 """
 import math
 import shutil
+import sys
 from fractions import Fraction
 
 import numpy as np
@@ -43,6 +54,7 @@ RULE = ("L1 cases = (points of two trees, scale list, weight_scale, weight_res);
         "centres as coordinates / catalog); distinct by generator parameters + data seed; non-trivial when at "
         "least one pair falls inside some scale (L1) / some cell is non-zero (L3)")
 HEADER = "From Verif Require Import Prelude PairCount.\nOpen Scope Q_scope.\n"
+HEADER_IGN = "From Verif Require Import Prelude PairCount PairIgnored.\nOpen Scope Q_scope.\n"
 TIE = Fraction(1, 2 ** 40)
 
 
@@ -80,6 +92,17 @@ def chord(ang):
 def obj_term(p, w, b, patch):
     return "{| ox := %s; oy := %s; oz := %s; ow := %s; obin := %s; opatch := %s |}" % (
         fq.z(p[0]), fq.z(p[1]), fq.z(p[2]), fq.q(w), fq.nat(b), fq.nat(patch))
+
+
+def aobj_term(p, w, z, patch, extra=()):
+    """an object with its columns: weight / redshift None = the catalog has no such column"""
+    return "{| ax := %s; ay := %s; az := %s; aw := %s; ared := %s; apatch := %s; aextra := %s |}" % (
+        fq.z(p[0]), fq.z(p[1]), fq.z(p[2]), fq.opt(w, fq.q), fq.opt(z, fq.q), fq.nat(patch), fq.qlist(extra))
+
+
+def aobj_of(o):
+    """iobj tuple (ivec, weight, bin, patch, has weight column, redshift or None) -> aobj term"""
+    return aobj_term(o[0], o[1] if o[4] else None, o[5], o[3])
 
 
 def cfg_term(c):
@@ -291,31 +314,132 @@ def run_l1(ctx):
 
 
 # ---------------------------------------------------------------- L3
-def make_catalog(ctx, name, pts, w, z, centers):
+def make_catalog(ctx, name, pts, w, z, centers, extra=None):
     cols = {"ra": [p[0] for p in pts], "dec": [p[1] for p in pts]}
     kw = dict(ra_name="ra", dec_name="dec", patch_centers=centers, max_workers=1)
     if w is not None:
         cols["w"] = w; kw["weight_name"] = "w"
     if z is not None:
         cols["z"] = z; kw["redshift_name"] = "z"
+    for k, v in (extra or {}).items():    # further columns of the input table, never named to the library
+        if k not in cols:
+            cols[k] = v
     return impl.Catalog.from_dataframe(impl.fresh_dir(ctx, name), impl.make_df(cols), **kw)
 
 
 def cat_objects(cat, edges, closed):
-    """objects of a catalog: (unit vector, weight, bin index 1..nb / 0 / nb+1, patch)"""
+    """objects of a catalog: (unit vector, weight, bin index 1..nb / 0 / nb+1, patch, has a weight column,
+    value of the redshift column or None)"""
     out = []
     for pid, patch in cat.items():
         data = patch.load_data()
         xyz = impl.AngularCoordinates(np.column_stack([data["ra"], data["dec"]])).to_3d()
-        w = data["weights"] if "weights" in data.dtype.names else np.ones(len(data))
-        if "redshifts" in data.dtype.names and edges is not None:
-            zs = data["redshifts"]
+        hasw = "weights" in data.dtype.names
+        w = data["weights"] if hasw else np.ones(len(data))
+        zs = data["redshifts"] if "redshifts" in data.dtype.names else None
+        if zs is not None and edges is not None:
             b = np.digitize(zs, edges, right=(closed == "right"))
         else:
             b = np.zeros(len(data), dtype=int)
         for i in range(len(data)):
-            out.append((xyz[i], float(w[i]), int(b[i]), int(pid)))
+            out.append((xyz[i], float(w[i]), int(b[i]), int(pid), hasw, None if zs is None else float(zs[i])))
     return out
+
+
+# ---------------------------------------------------------------- columns and values a measurement ignores
+UNK_Z_PROFILES = ["flag", "allflag", "neg", "zero", "huge", "near", "inrange", "mixed"]
+REF_OUT_PROFILES = ["flag", "neg", "zero", "huge", "near", "mixed"]
+EXTRA_PROFILES = ["floats", "nonfinite", "strings", "shadow", "many"]
+PRETREES = ["same", "other", "other-closed", "force", "leafsize"]
+FMAX = sys.float_info.max
+
+
+def ign_spec(rng, force=False):
+    """the ignored dimension of one scenario: what the redshift column of the unbinned sample (unknown) and of its
+    randoms holds (None = no such column), which values outside the binning the binned samples hold, which of the
+    unweighted catalogs get a weight column of ones, further columns of the input tables, trees built explicitly
+    before the measurement"""
+    if not force and rng.random() < 0.35:
+        return None
+    unk = rng.choice([None] + UNK_Z_PROFILES * 2)
+    return dict(unk_z=unk, rand_z=rng.choice([None, unk, unk] + UNK_Z_PROFILES),
+                ref_out=rng.choice([None] + REF_OUT_PROFILES), ones=rng.choice(["none", "all", "first", "second", "rand"]),
+                extra=rng.choice([None, None] + EXTRA_PROFILES), pretrees=rng.choice([None, None] + PRETREES),
+                frac=rng.choice([0.2, 0.4, 0.7]))
+
+
+def ign_pool(kind, edges, zvals):
+    zmin, zmax = float(edges[0]), float(edges[-1])
+    pools = dict(
+        flag=[-99.0, -99.0, -1.0, -999.0, -9999.0],
+        neg=[-5e-324, -1e-300, -1e-3, -zmin, -zmax, -1.0, -1e30, -FMAX, -0.0],
+        zero=[0.0, -0.0],
+        huge=[1e30, 1e300, FMAX, 99.0, 9.99e5],
+        near=[float(np.nextafter(zmin, -np.inf)), float(np.nextafter(zmax, np.inf)), zmin * 0.5, zmax * 1.1, zmin, zmax,
+              float(np.nextafter(zmin, np.inf)), float(np.nextafter(zmax, -np.inf))],
+        inrange=[float(v) for v in zvals])
+    if kind == "mixed":
+        return [v for k in ("flag", "neg", "zero", "huge", "near", "inrange") for v in pools[k]]
+    return pools[kind]
+
+
+def ign_redshifts(rng, profile, n, edges, zvals, frac):
+    """a redshift column for a sample that is counted unbinned"""
+    if profile == "allflag":
+        return [-99.0] * n
+    if profile == "flag":      # a photometric redshift column: estimates, failed ones flagged
+        pool, good = ign_pool("flag", edges, zvals), ign_pool("inrange", edges, zvals)
+        z = [float(rng.choice(pool)) if rng.random() < frac else float(rng.choice(good)) for _ in range(n)]
+        if n and all(v >= 0 for v in z):
+            z[rng.randrange(n)] = -99.0
+        return z
+    pool = ign_pool(profile, edges, zvals)
+    return [float(rng.choice(pool)) for _ in range(n)]
+
+
+def ign_outside(rng, profile, z, edges, zvals, frac):
+    """redshifts of a binned sample: a share of them replaced by values (mostly) outside the binning"""
+    pool = ign_pool(profile, edges, zvals)
+    return [float(rng.choice(pool)) if rng.random() < frac else v for v in z]
+
+
+def ign_extra(rng, profile, n, has_w, has_z):
+    """further columns of the input table; with 'shadow' they carry the names the library uses for its own columns
+    (or the harness for the named ones, where the catalog has none)"""
+    junk = lambda: [rng.choice([-99.0, 0.0, 1e30, -1.0, 0.5]) for _ in range(n)]   # noqa: E731
+    cols = {}
+    if profile in ("floats", "many"):
+        cols["mag_r"] = junk(); cols["zphot_err"] = junk()
+    if profile in ("nonfinite", "many"):
+        cols["flux"] = [rng.choice([float("nan"), float("inf"), -float("inf"), 1.0]) for _ in range(n)]
+    if profile in ("strings", "many"):
+        cols["field"] = [rng.choice(["W1", "W4", "", "nan"]) for _ in range(n)]
+        cols["id"] = list(range(n))
+    if profile in ("shadow", "many"):
+        cols["redshifts"] = junk(); cols["weights"] = junk(); cols["patch_ids"] = [rng.randrange(-3, 70000) for _ in range(n)]
+        cols["patch"] = [rng.randrange(0, 9) for _ in range(n)]
+        if not has_w:
+            cols["w"] = [rng.choice([0.0, -1.0, float("nan"), 7.0]) for _ in range(n)]
+        if not has_z:
+            cols["z"] = [rng.choice([-99.0, float("nan"), 0.5]) for _ in range(n)]
+    return cols
+
+
+def stored_vs_input(cat, pts, w, z):
+    """the records the library stored for a catalog against the generated input table: number of records and the
+    multiset of (weight, redshift) bit patterns (None if equal, else a description).  The brute-force oracle takes
+    its objects from the stored records; this ties them to the input."""
+    want = sorted((None if w is None else float(w[i]).hex(), None if z is None else float(z[i]).hex()) for i in range(len(pts)))
+    got = []
+    for pid, patch in cat.items():
+        data = patch.load_data()
+        names = data.dtype.names
+        for i in range(len(data)):
+            got.append((float(data["weights"][i]).hex() if "weights" in names else None,
+                        float(data["redshifts"][i]).hex() if "redshifts" in names else None))
+    if sorted(got, key=repr) == sorted(want, key=repr):
+        return None
+    return "%d records stored for %d input rows; (weight, redshift) values differ" % (len(got), len(want))
 
 
 REGIONS = [("equator", 40.0, 3.0), ("wrap", 359.7, -12.0), ("npole", 77.0, 89.2), ("spole", 300.0, -89.5), ("mid", 150.0, 45.0)]
